@@ -279,7 +279,7 @@ func impliedAtoms(f *ssa.Function, v ssa.Value, val bool, depth int) []Atom {
 // located calls
 
 type located struct {
-	call  *ssa.Call       // the anchor
+	call  ssa.CallInstruction // the anchor (call, go or defer)
 	in    *ssa.Function   // the function that contains it
 	chain []*ssa.Call     // call sites leading from the root function down to `in` (empty when in == root)
 	fns   []*ssa.Function // fns[i] contains chain[i]; fns[0] is the root
@@ -313,9 +313,7 @@ func findDeep(root *ssa.Function, match func(name string, c *ssa.CallCommon) boo
 	var walk func(f *ssa.Function, chain []*ssa.Call, fns []*ssa.Function, d int, seen map[*ssa.Function]bool)
 	walk = func(f *ssa.Function, chain []*ssa.Call, fns []*ssa.Function, d int, seen map[*ssa.Function]bool) {
 		for _, ci := range callsIn(f, match) {
-			if call, ok := ci.(*ssa.Call); ok {
-				out = append(out, located{call, f, append([]*ssa.Call{}, chain...), append(append([]*ssa.Function{}, fns...), f)})
-			}
+			out = append(out, located{ci, f, append([]*ssa.Call{}, chain...), append(append([]*ssa.Function{}, fns...), f)})
 		}
 		if d >= depth {
 			return
@@ -344,11 +342,9 @@ func findDeep(root *ssa.Function, match func(name string, c *ssa.CallCommon) boo
 // findOneDeep: the last matching call in root itself if there is one (the behaviour the rules had), else the
 // unique located call below it.
 func findOneDeep(root *ssa.Function, match func(name string, c *ssa.CallCommon) bool) (located, bool) {
-	var direct *ssa.Call
+	var direct ssa.CallInstruction
 	for _, ci := range callsIn(root, match) {
-		if call, ok := ci.(*ssa.Call); ok {
-			direct = call
-		}
+		direct = ci
 	}
 	if direct != nil {
 		return located{direct, root, nil, []*ssa.Function{root}}, true
@@ -453,4 +449,201 @@ func eachInstrDeep(root *ssa.Function, depth int, visit func(in ssa.Instruction,
 		})
 	}
 	walk(root, nil, nil, 0, map[*ssa.Function]bool{root: true})
+}
+
+// ---------------------------------------------------------------------------
+// phase-split queries: the function under a rule may have been split into a predicate phase ("admit": returns
+// whether to go on) and an action phase; conditions are then tested in one helper and acted on in another.
+
+// levelFns returns, for level k of l's chain, the function and the instruction that stands for the target there.
+func (l located) level(k int) (*ssa.Function, ssa.Instruction) {
+	if k < len(l.chain) {
+		return l.fns[k], l.chain[k]
+	}
+	return l.in, l.call
+}
+
+// toRootFrom translates a condition rendered in the names of level k to the root's names.
+func (l located) toRootFrom(k int, s string) string {
+	for j := k - 1; j >= 0; j-- {
+		callee := l.in
+		if j+1 < len(l.fns) {
+			callee = l.fns[j+1]
+		}
+		s = substParams(s, callee, &l.chain[j].Call)
+	}
+	return s
+}
+
+// gatingPredicates: the same-package predicate helpers called in f whose boolean result (== val) guards instruction in.
+type gate struct {
+	call *ssa.Call
+	h    *ssa.Function
+	idx  int
+	val  bool
+}
+
+func gatingPredicates(f *ssa.Function, in ssa.Instruction) []gate {
+	var out []gate
+	eachInstr(f, func(x ssa.Instruction) {
+		call, ok := x.(*ssa.Call)
+		if !ok {
+			return
+		}
+		h := helperCallee(f, &call.Call)
+		if h == nil {
+			return
+		}
+		res := h.Signature.Results()
+		for i := 0; i < res.Len(); i++ {
+			if b, ok := res.At(i).Type().Underlying().(*types.Basic); !ok || b.Kind() != types.Bool {
+				continue
+			}
+			p := pathOf(call)
+			if res.Len() > 1 {
+				p += "#" + itoa(i)
+			}
+			for _, val := range []bool{true, false} {
+				v := val
+				if guardedM(f, in, func(c string, pol bool) bool { return c == p && pol == v }) {
+					out = append(out, gate{call, h, i, val})
+				}
+			}
+		}
+	})
+	return out
+}
+
+// mayReturn: from the edge prev->start of h, can h return a value of result idx that may equal val, without passing
+// blockedI / blockedE?
+func mayReturn(h *ssa.Function, prev, start *ssa.BasicBlock, idx int, val bool, blockedI func(ssa.Instruction) bool, blockedE map[edge]bool) bool {
+	for _, v := range returnedAlongX(h, prev, start, idx, blockedI, blockedE) {
+		if c, ok := v.(*ssa.Const); ok && c.Value != nil && c.Value.Kind() == constant.Bool {
+			if constant.BoolVal(c.Value) == val {
+				return true
+			}
+			continue
+		}
+		return true
+	}
+	return false
+}
+
+// neverAfter: the located target never runs after a branch edge that establishes a condition accepted by `from`
+// (conditions are given in the ROOT function's names), except along edges that establish one accepted by `unless`
+// (may be nil). found=false when no such edge exists anywhere the target's chain can see (undecided).
+func neverAfter(l located, from, unless func(cond string, pol bool) bool) (ok, found bool) {
+	ok = true
+	for k := 0; k <= len(l.chain); k++ {
+		f, in := l.level(k)
+		lvl := k
+		tr := func(m func(string, bool) bool) func(string, bool) bool {
+			if m == nil {
+				return nil
+			}
+			return func(c string, pol bool) bool { return m(l.toRootFrom(lvl, c), pol) }
+		}
+		var blocked map[edge]bool
+		if unless != nil {
+			blocked = edgesEstablishing(f, tr(unless))
+		}
+		for e := range edgesEstablishing(f, tr(from)) {
+			found = true
+			succ := f.Blocks[e.from].Succs[e.slot]
+			if len(succ.Instrs) == 0 {
+				continue
+			}
+			if hit, _ := reachAt(f, succ, isInstr(in), nil, blocked); hit {
+				ok = false
+			}
+		}
+		// conditions tested in a predicate phase whose verdict gates the target at this level
+		for _, g := range gatingPredicates(f, in) {
+			gt := g
+			trH := func(m func(string, bool) bool) func(string, bool) bool {
+				if m == nil {
+					return nil
+				}
+				return func(c string, pol bool) bool {
+					return m(l.toRootFrom(lvl, substParams(c, gt.h, &gt.call.Call)), pol)
+				}
+			}
+			var blockedH map[edge]bool
+			if unless != nil {
+				blockedH = edgesEstablishing(g.h, trH(unless))
+			}
+			for e := range edgesEstablishing(g.h, trH(from)) {
+				found = true
+				if mayReturn(g.h, g.h.Blocks[e.from], g.h.Blocks[e.from].Succs[e.slot], g.idx, g.val, nil, blockedH) {
+					// ... and from the predicate's call on to the target without an `unless` edge at this level
+					// (what the predicate established still holds: edges on which its negation would hold are not taken)
+					cont := map[edge]bool{}
+					for e2 := range blocked {
+						cont[e2] = true
+					}
+					trF := tr(from)
+					for e2 := range edgesEstablishing(f, func(c string, pol bool) bool { return trF(c, !pol) }) {
+						cont[e2] = true
+					}
+					if hit, _ := reach(f, g.call, isInstr(in), nil, cont); hit {
+						ok = false
+					}
+				}
+			}
+		}
+	}
+	return ok, found
+}
+
+// alwaysBefore: every execution that reaches the located target has executed the located `via` before, except along
+// edges that establish a condition accepted by `exempt` (root names). Handles: both in the root; `via` inside a
+// helper called on the way (every path through the helper passes it); `via` inside a predicate phase whose verdict
+// gates the target (every path to the gating verdict passes it).
+func alwaysBefore(target, via located, exempt func(cond string, pol bool) bool) bool {
+	root := target.fns[0]
+	tsite, vsite := target.site(), via.site()
+	var exemptRoot map[edge]bool
+	if exempt != nil {
+		exemptRoot = edgesEstablishing(root, exempt)
+	}
+	if bypass, _ := reach(root, nil, isInstr(tsite), isInstr(vsite), exemptRoot); bypass {
+		return false
+	}
+	if len(via.chain) == 0 {
+		return true
+	}
+	// inside the helpers on via's chain
+	for k := 0; k < len(via.chain); k++ {
+		h := via.in
+		if k+1 < len(via.fns) {
+			h = via.fns[k+1]
+		}
+		var next ssa.Instruction = via.call
+		if k+1 < len(via.chain) {
+			next = via.chain[k+1]
+		}
+		lvl := k + 1
+		var exemptH map[edge]bool
+		if exempt != nil {
+			exemptH = edgesEstablishing(h, func(c string, pol bool) bool { return exempt(via.toRootFrom(lvl, c), pol) })
+		}
+		// is the helper a predicate phase whose verdict gates the target? then only the gating verdict matters
+		gated := false
+		if k == 0 {
+			for _, g := range gatingPredicates(root, tsite) {
+				if g.call == via.chain[0] {
+					gated = true
+					if mayReturn(h, nil, h.Blocks[0], g.idx, g.val, isInstr(next), exemptH) {
+						return false
+					}
+				}
+			}
+		}
+		if !gated {
+			if hit, _ := reach(h, nil, isReturn, isInstr(next), exemptH); hit {
+				return false
+			}
+		}
+	}
+	return true
 }
